@@ -4,6 +4,7 @@ import Gomacro.Drv.C20
 import Gomacro.Drv.An
 import Gomacro.Drv.C09
 import Gomacro.Drv.C16
+import Gomacro.Drv.C01
 /-! JSON-lines driver: one request object per line in, one reply per line out.
 Unknown ops are `bad-op`, never defaulted.  Core-only imports (links as an executable). -/
 open Lean Gomacro.Drv
@@ -19,7 +20,8 @@ def handlers : List (String × Handler) := [
   ("c16.constraint", c16Constraint),
   ("c16.classify", c16Classify),
   ("c16.one", c16One),
-  ("c16.query", c16Query)
+  ("c16.query", c16Query),
+  ("c01.idents", c01Idents)
 ]
 
 def handleLine (line : String) : String :=
